@@ -214,6 +214,7 @@ func VH_best_chain_state_decode_robust() {
 	vReach("end")
 }
 
+// C15(6): decodeSpentTxOut on arbitrary bytes: an error or a value, never a panic, never more bytes consumed than given.
 //verif:opts reach=end override=decompressTxOutAmount:vStubAmount
 func VH_stxo_decode_robust() {
 	n := vNondetLen("len", 12)
@@ -224,6 +225,7 @@ func VH_stxo_decode_robust() {
 	vReach("end")
 }
 
+// C15(6): deserializeSpendJournalEntry on arbitrary bytes for a one-input transaction: an error or a value, never a panic.
 //verif:opts reach=end override=decompressTxOutAmount:vStubAmount
 func VH_spend_journal_decode_robust() {
 	n := vNondetLen("len", 8)
@@ -235,6 +237,7 @@ func VH_spend_journal_decode_robust() {
 	vReach("end")
 }
 
+// C15(6): block-index rows on arbitrary bytes: an error or a value, never a panic or an out-of-bounds read.
 //verif:opts reach=end
 func VH_block_row_decode_robust() {
 	lens := []int{0, 79, 80, 81, 82}
